@@ -1,8 +1,8 @@
 use std::collections::BTreeSet;
 
 use crate::{
-    AnyStoredVec, Bytes, ChangeCursor, ChangeData, ReadWriteBaseVec, Result, SIZE_OF_U64, VecIndex,
-    VecValue,
+    AnyStoredVec, AnyVec, Bytes, ChangeCursor, ChangeData, Error, ReadWriteBaseVec, Result,
+    SIZE_OF_U64, VecIndex, VecValue,
 };
 
 use super::{super::RawStrategy, ReadWriteRawVec, change::RawChangeData};
@@ -92,6 +92,25 @@ where
             modifications,
             prev_holes,
         } = Self::parse_raw_change_data(bytes)?;
+
+        // Validate the whole record against the current state before the first mutation, so
+        // that a refused rollback leaves the vector unchanged and a damaged length field
+        // cannot produce a length the data does not back.
+        if truncated_start > self.stored_len() {
+            return Err(Error::IndexTooHigh {
+                index: truncated_start,
+                len: self.stored_len(),
+                name: self.name().to_string(),
+            });
+        }
+        let restored_len = prev_stored_len + prev_pushed.len();
+        if let Some(&(index, _)) = modifications.iter().find(|(i, _)| *i >= restored_len) {
+            return Err(Error::IndexTooHigh {
+                index,
+                len: restored_len,
+                name: self.name().to_string(),
+            });
+        }
 
         // Only needed when the rolled-back flush appended (prev_stored_len <
         // current): any holes/updated in the now-gone range must be dropped.
